@@ -9,7 +9,7 @@ def correspond(ctx):
     ctx.extra["rule"] = ("random loop-free multigraphs n<=6 (parallel edges, isolated vertices), edge flags as variables / "
                          "negations / compound expressions / constants; program emitted by the real active_edges_acyclic vs the "
                          "Lean model's program (constraint multiset); distinct by call arguments")
-    graphcorr.run_cases(ctx, graphcorr.case_acyclic, ctx.n(400, 6000), "acyclic")
+    graphcorr.run_cases(ctx, graphcorr.case_acyclic, ctx.n(400, 6000), "acyclic", bigs=graphcorr.graph_bigs())
     if not ctx.quick():
         for f in search(ctx, None, budget=40):
             ctx.disagree("semantic", what=f.what, data=f.data)
@@ -36,8 +36,43 @@ def _check(n, edges, negate=False):
     return None
 
 
+def _check_patterns(n, edges, negate, patterns):
+    """Selected edge sets of a medium / large graph (see graphs.edge_patterns)."""
+    from cspuz import graph as G
+    mk = graphs.mk_graph(n, edges)
+    m = len(edges)
+
+    def builder(s):
+        vs = [s.bool_var() for _ in range(m)]
+        ie = [~v for v in vs] if negate else vs
+        return lambda: G.active_edges_acyclic(s, ie, mk)
+    decls, cs, base, _ = graphs.real_program(builder)
+    for name, act in patterns:
+        fixed = {f"b{i}": (not act[i]) if negate else act[i] for i in range(m)}
+        got = exprio.solve_prog(decls, cs, base, fixed) is not None
+        want = graphs.edges_acyclic(n, edges, act)
+        if got != want:
+            return name, [edges[k] for k in range(m) if act[k]], got, want
+    return None
+
+
 def search(ctx, why, budget=None):
     found = {}
+    # medium / LARGE graphs: cycles among the highest vertex ids (>= 257), maximal forests, forest + one edge
+    for idx, (n, edges) in enumerate(graphs.big_graphs()):
+        negate = idx % 3 == 2
+        try:
+            bad = _check_patterns(n, edges, negate, graphs.edge_patterns(n, edges))
+        except Exception as e:
+            bad = ("exception", None, core.err_name(e), str(e)[:200])
+        ctx.count("search:acyclic:big")
+        if bad and "big" not in found:
+            found["big"] = Finding(
+                "acyclic:large-graph",
+                f"active_edges_acyclic on a graph with {n} vertices and {len(edges)} edges (edges {edges[:4]} ... {edges[-6:]}), active edges"
+                f"{' (flags given negated)' if negate else ''} ({bad[0]}) = "
+                f"{bad[1] if bad[1] is None or len(bad[1]) <= 14 else str(bad[1][:6]) + ' ... ' + str(bad[1][-6:])}: satisfiable={bad[2]} expected {bad[3]}",
+                {"big": True, "n": n, "edges": edges, "negate": negate, "pattern_name": bad[0], "active_edges": bad[1]})
     for (n, edges) in graphs.small_graphs(ctx.rng, budget or ctx.n(30, 60), 5):
         if len(edges) > 9 or any(a == b for a, b in edges):
             continue
@@ -51,11 +86,23 @@ def search(ctx, why, budget=None):
             ctx.count("search:acyclic")
             if bad and "x" not in found:
                 found["x"] = Finding("acyclic:sat-mismatch",
-                                     f"active_edges_acyclic on n={n} edges={edges} flags{'(negated)' if negate else ''}={bad[0]}: satisfiable={bad[1]} expected {bad[2]}",
+                                     f"active_edges_acyclic on n={n} edges={edges} flags{'(negated)' if negate else ''}={bad[0]}: satisfiable={bad[1]} expected {bad[2]}"
+                                     + graphs.history_note(n, edges),
                                      {"n": n, "edges": edges, "negate": negate, "pattern": bad[0], "got": bad[1], "want": bad[2]})
     return list(found.values())
 
 
 def replay(ctx, data):
+    if data.get("big"):
+        edges = [tuple(e) for e in data["edges"]]
+        left, act = [tuple(e) for e in (data["active_edges"] or [])], []
+        for e in edges:
+            if e in left:
+                left.remove(e)
+                act.append(True)
+            else:
+                act.append(False)
+        bad = _check_patterns(data["n"], edges, data.get("negate", False), [(data.get("pattern_name"), act)])
+        return Finding("acyclic:replay", f"still fails: {bad}", data) if bad else None
     bad = _check(data["n"], [tuple(e) for e in data["edges"]], data.get("negate", False))
     return Finding("acyclic:replay", f"still fails: {bad}", data) if bad else None
